@@ -13,6 +13,7 @@ mod c13;
 mod actions;
 mod c09;
 mod c10;
+mod c08;
 mod c15;
 mod c16;
 mod c17;
@@ -70,6 +71,7 @@ fn module(prop: &str) -> PropModule {
             eprintln!("{}: the router scheduling hooks (patches/hook-router.patch) are not in the iwes tree", prop);
             std::process::exit(3);
         }
+        "C08" => c08::module(),
         "C01" => PropModule { coq_module: "Check_Norm", runner: "Check_Norm.run_C01", generate: |r, t| libgen::generate_mixed(r, t, 320), execute: lib_stage::execute, label: libgen::label },
         "C02" => PropModule { coq_module: "Check_Norm", runner: "Check_Norm.run_C02", generate: |r, t| libgen::generate_mixed(r, t, 320), execute: lib_stage::execute, label: libgen::label },
         "C06" => PropModule { coq_module: "Check_Norm", runner: "Check_Norm.run_C06", generate: |r, t| libgen::generate_mixed(r, t, 320), execute: lib_stage::execute, label: libgen::label },
